@@ -5,8 +5,14 @@ use super::queue_state::*;
 use super::wake_thread::*;
 
 use std::fmt;
+#[cfg(not(desync_verif))]
 use std::sync::*;
+#[cfg(desync_verif)]
+use crate::verif::sync::*;
+#[cfg(not(desync_verif))]
 use std::thread;
+#[cfg(desync_verif)]
+use crate::verif::thread;
 use std::collections::vec_deque::*;
 
 use futures::task;
@@ -209,5 +215,15 @@ impl JobQueue {
         } else {
             JobStatus::NoJobsWaiting
         }
+    }
+}
+
+#[cfg(desync_verif)]
+impl JobQueue {
+    ///
+    /// (Verification builds only) the queue state, the number of queued jobs and the number of registered blocked waiters, read without a scheduling point
+    ///
+    pub fn verif_snapshot(&self) -> Option<(String, usize, usize)> {
+        self.core.verif_peek(|core| (format!("{:?}", core.state), core.queue.len(), core.wake_blocked.len()))
     }
 }
